@@ -58,6 +58,7 @@ func init() {
 			{Name: "strings", Count: c06Strings, Run: func(tier string, idx int, r *Result) {
 				c06Oracle(feString(idx), nil, r)
 			}},
+			{Name: "numeric-literal-values", Count: func(string) int { return c06NumCount() }, Run: func(_ string, idx int, r *Result) { c06NumRun(idx, r) }},
 			{Name: "adjacent-pairs", Count: func(string) int { return L * L * S }, Run: func(tier string, idx int, r *Result) {
 				d := radix(idx, S, L, L)
 				src := c06Lexemes[d[2]] + feSeparators[d[0]] + c06Lexemes[d[1]]
